@@ -406,6 +406,145 @@ Definition ex_func : dfunc :=
   [ mkDB [(1, 8); (2, 8); (3, 1)] [DConst 9 8 1] (DCondBr 3 1 [1; 9] 1 [2; 9]);
     mkDB [(4, 8); (5, 8)]
          [DBin 6 (mkBin "AddOp" (Some 1) false false []) 8 4 5; DIcmp 7 6 8 6 2;
-          DCast 10 (mkCast "ZExtOp" None false) 1 7 8; DSelect 11 8 7 6 10]
+          DCast 10 (mkCast "ZExtOp" None false) 1 7 8; DSelect 11 8 7 10 6]
          (DCondBr 7 1 [6; 5] 2 [11]);
     mkDB [(8, 8)] [] (DRet 8 8) ].
+Definition ex_env (l : list Z) : cenv := combine (map fst (d_args (nth 0 ex_func ddflt))) l.
+Example ex_func_ok : whole_okb ex_func = true.
+Proof. vm_compute. reflexivity. Qed.
+Example ex_func_runs : exists T, tr_prog ex_func = Ok T /\
+  run_src ex_func 10 0 (ex_env [100; 100; 1]) = WRet 101 /\ run_tgt T 10 0 (ex_env [100; 100; 1]) = WRet 101 /\
+  run_src ex_func 10 0 (ex_env [5; 200; 0]) = WRet 201 /\ run_tgt T 10 0 (ex_env [5; 200; 0]) = WRet 201 /\
+  run_src ex_func 10 0 (ex_env [127; 3; 1]) = WPoison /\ run_tgt T 10 0 (ex_env [127; 3; 1]) = WPoison /\
+  run_src ex_func 3 0 (ex_env [1; 250; 1]) = WFuel /\ run_tgt T 3 0 (ex_env [1; 250; 1]) = WFuel.
+Proof. eexists. split; [vm_compute; reflexivity|]. repeat split; vm_compute; reflexivity. Qed.
+
+(* ---------- conv_func's literal output vs the block-wise translation ---------- *)
+Lemma lit_transfer bs T d cur e : lit_matches bs T -> 0 < d -> (Z.to_nat d < List.length (t_k T))%nat ->
+  lit_phi_vals (nth (Z.to_nat d) bs idflt) cur e = phi_vals cenv i_eval (t_k T) (t_pt T) d cur e /\
+  forall vs, lit_enter bs d vs e = enter cenv c_assign (t_k T) d vs e.
+Proof.
+  intros [Hlen Hm] Hd Hr.
+  assert (Hb : nth_error bs (Z.to_nat d) = Some (nth (Z.to_nat d) bs idflt)).
+  { apply nth_error_nth'. rewrite Hlen. exact Hr. }
+  destruct (Hm _ _ Hb) as (_ & _ & Hp). destruct Hp as [Hids Hincs]; [lia|].
+  set (b := nth (Z.to_nat d) bs idflt) in *.
+  assert (Hn : k_nargs (t_k T) d = List.length (i_phis b)).
+  { unfold k_nargs. rewrite (nth_error_nth' (t_k T) kdflt Hr), <- Hids, map_length. reflexivity. }
+  split.
+  - unfold lit_phi_vals, phi_vals. rewrite Hn.
+    rewrite <- (opt_map_map (fun incs => phi_eval cenv i_eval incs cur e) snd (i_phis b)), Hincs, opt_map_map.
+    rewrite Z2Nat.id by lia. reflexivity.
+  - intros vs. unfold lit_enter, enter, c_assign. fold b. rewrite Hids. reflexivity.
+Qed.
+
+Theorem lit_sim bs T : lit_matches bs T -> wf (t_k T) ->
+  forall fuel cur e, run_lit bs fuel cur e = run_tgt T fuel cur e.
+Proof.
+  intros HM Hwf. pose proof HM as [Hlen Hm].
+  induction fuel as [|n IH]; intros cur e; [reflexivity|]. cbn [run_lit run_tgt].
+  destruct (nth_error bs cur) as [b|] eqn:Hb.
+  2: { apply nth_error_None in Hb. rewrite Hlen in Hb. apply nth_error_None in Hb. rewrite Hb. reflexivity. }
+  assert (Hc : (cur < List.length (t_k T))%nat) by (rewrite <- Hlen; apply nth_error_Some; rewrite Hb; discriminate).
+  rewrite (nth_error_nth' (t_k T) kdflt Hc).
+  destruct (Hm _ _ Hb) as (Hbody & Hterm & _). rewrite Hbody.
+  destruct (exec_body_i e (nth cur (t_bodies T) [])) as [e1| |]; try reflexivity.
+  pose proof (Hwf _ (nth_In (t_k T) kdflt Hc)) as Hok. unfold term_ok in Hok.
+  destruct (k_term (nth cur (t_k T) kdflt)) as [v|d args|c tb ta eb ea|];
+    destruct (i_term b) as [ty v'| |d'|c' tb' eb'|]; cbn [term_matchesP] in Hterm; try contradiction; try reflexivity.
+  - subst v'. reflexivity.
+  - subst d'. destruct Hok as (H0 & Hr & _). destruct (lit_transfer bs T d (Z.of_nat cur) e1 HM H0 Hr) as [E1 E2].
+    rewrite E1. destruct (phi_vals cenv i_eval (t_k T) (t_pt T) d (Z.of_nat cur) e1) as [vs|]; [|reflexivity].
+    rewrite E2. apply IH.
+  - destruct Hterm as (<- & <- & <-). destruct Hok as ((H0 & Hr & _) & (H0' & Hr' & _)).
+    destruct (i_eval e1 c) as [cv|]; [|reflexivity]. cbv zeta.
+    assert (Hd : 0 < (if Z.odd cv then tb else eb) /\ (Z.to_nat (if Z.odd cv then tb else eb) < List.length (t_k T))%nat)
+      by (destruct (Z.odd cv); split; assumption).
+    destruct Hd as [Hd0 Hdr].
+    destruct (lit_transfer bs T _ (Z.of_nat cur) e1 HM Hd0 Hdr) as [E1 E2].
+    rewrite E1. destruct (phi_vals cenv i_eval (t_k T) (t_pt T) _ (Z.of_nat cur) e1) as [vs|]; [|reflexivity].
+    rewrite E2. apply IH.
+Qed.
+
+(* the composition: the IR function conv_func produces computes what the dialect function computes *)
+Theorem conv_func_sim : forall f bs T, conv_func f = Ok bs -> tr_prog f = Ok T -> lit_matches bs T ->
+  whole_okb f = true ->
+  forall fuel inputs,
+    let e0 := combine (map fst (d_args (nth 0 f ddflt))) inputs in
+    run_src f fuel 0 e0 <> WStuck -> run_lit bs fuel 0 e0 = run_src f fuel 0 e0.
+Proof.
+  intros f bs T _ Ht HM Hok fuel inputs e0 Hns.
+  transitivity (run_tgt T fuel 0 e0); [|exact (whole_function_sim f T Ht Hok fuel inputs Hns)].
+  apply lit_sim; [exact HM|].
+  unfold tr_prog in Ht. cbv zeta in Ht.
+  destruct (k_build condbr_same_block_special_case (tr_kfunc (final_vm f) f) (block_order f)) as [pt|]; [|discriminate].
+  cbn [bind] in Ht. inversion Ht; subst T. cbn [t_k].
+  unfold whole_okb in Hok. cbv zeta in Hok.
+  apply andb_prop in Hok as [Hok _]. apply andb_prop in Hok as [_ Hw]. apply (terms_okb_ok _ _ Hw).
+Qed.
+
+(* ---------- lit_matches is decidable: the validator lit_matchesb ---------- *)
+Definition iopd_eq_dec : forall x y : iopd, {x = y} + {x <> y}.
+Proof. decide equality; apply Z.eq_dec. Defined.
+Definition kopd_eq_dec : forall x y : kopd, {x = y} + {x <> y}.
+Proof. decide equality; apply iopd_eq_dec. Defined.
+Definition incoming_eq_dec : forall x y : incoming, {x = y} + {x <> y}.
+Proof. decide equality; [apply Z.eq_dec | apply kopd_eq_dec]. Defined.
+Definition iinstr_eq_dec : forall x y : iinstr, {x = y} + {x <> y}.
+Proof.
+  decide equality; try apply Z.eq_dec; try apply string_dec; try apply iopd_eq_dec;
+    apply list_eq_dec; apply string_dec.
+Defined.
+Definition dec2b {P : Prop} (d : {P} + {~ P}) : bool := if d then true else false.
+Lemma dec2b_true {P : Prop} (d : {P} + {~ P}) : dec2b d = true -> P.
+Proof. destruct d; [auto | discriminate]. Qed.
+
+Definition term_matchesb (k : kterm) (t : iterm) : bool :=
+  match k, t with
+  | KRet a, IRet _ b => dec2b (iopd_eq_dec a b)
+  | KStop, IRetVoid | KStop, IUnreachable => true
+  | KBr d _, IBr d' => d =? d'
+  | KCondBr c tb _ eb _, ICondBr c' tb' eb' => dec2b (iopd_eq_dec c c') && (tb =? tb') && (eb =? eb')
+  | _, _ => false
+  end.
+Definition lit_matchesb (bs : list iblock) (T : tprog) : bool :=
+  Nat.eqb (List.length bs) (List.length (t_k T)) &&
+  forallb (fun i =>
+     let b := nth i bs idflt in
+     dec2b (list_eq_dec iinstr_eq_dec (i_body b) (nth i (t_bodies T) [])) &&
+     term_matchesb (k_term (nth i (t_k T) kdflt)) (i_term b) &&
+     (Nat.eqb i 0 ||
+      (dec2b (list_eq_dec Z.eq_dec (map (fun ph => fst (fst ph)) (i_phis b)) (k_args (nth i (t_k T) kdflt))) &&
+       dec2b (list_eq_dec (list_eq_dec incoming_eq_dec) (map snd (i_phis b))
+                (map (fun k => pt_get (t_pt T) (Z.of_nat i) (Z.of_nat k)) (seq 0 (List.length (i_phis b))))))))
+    (seq 0 (List.length bs)).
+
+Lemma term_matchesb_ok k t : term_matchesb k t = true -> term_matchesP k t.
+Proof.
+  destruct k, t; cbn; try discriminate; try (intros _; exact I).
+  - apply dec2b_true.
+  - apply Z.eqb_eq.
+  - intros H. apply andb_prop in H as [H H3]. apply andb_prop in H as [H1 H2].
+    apply dec2b_true in H1. apply Z.eqb_eq in H2, H3. auto.
+Qed.
+Lemma lit_matchesb_ok bs T : lit_matchesb bs T = true -> lit_matches bs T.
+Proof.
+  unfold lit_matchesb, lit_matches. intros H. apply andb_prop in H as [Hl H]. apply Nat.eqb_eq in Hl.
+  split; [exact Hl|]. intros i b Hb. rewrite forallb_forall in H.
+  assert (Hi : (i < List.length bs)%nat) by (apply nth_error_Some; rewrite Hb; discriminate).
+  specialize (H i ltac:(apply in_seq; lia)). cbv zeta in H. rewrite (nth_error_nth _ _ idflt Hb) in H.
+  apply andb_prop in H as [H H3]. apply andb_prop in H as [H1 H2].
+  split; [exact (dec2b_true _ H1)|]. split; [apply term_matchesb_ok; exact H2|].
+  intros Hne. destruct (Nat.eqb_spec i 0) as [|_]; [contradiction|]. cbn [orb] in H3.
+  apply andb_prop in H3 as [A B]. split; [exact (dec2b_true _ A) | exact (dec2b_true _ B)].
+Qed.
+
+(* translation validation: whenever the two computable checks accept, conv_func's output computes the source *)
+Theorem conv_func_validated : forall f bs T, conv_func f = Ok bs -> tr_prog f = Ok T ->
+  lit_matchesb bs T = true -> whole_okb f = true ->
+  forall fuel inputs,
+    let e0 := combine (map fst (d_args (nth 0 f ddflt))) inputs in
+    run_src f fuel 0 e0 <> WStuck -> run_lit bs fuel 0 e0 = run_src f fuel 0 e0.
+Proof.
+  intros f bs T Hc Ht Hm Hok. apply (conv_func_sim f bs T Hc Ht (lit_matchesb_ok bs T Hm) Hok).
+Qed.
